@@ -24,7 +24,7 @@ def deficient_mixture(rng, mix, cls, model):
     return mix
 
 
-def call_entry(rng, entry, cls, model, invalid=True):
+def call_entry(rng, entry, cls, model, invalid=True, warm=False):
     mix0 = gen.some_mixture(rng, p_builtin=0.6)
     mix = deficient_mixture(rng, mix0, cls, model) if invalid else mix0
     membrane = rp.make_membrane(rng, mix0)
@@ -38,74 +38,114 @@ def call_entry(rng, entry, cls, model, invalid=True):
         c = pv.Composition(p=rng.choice([0.0, 1.0]), type=gen.tstr(rng, rng.choice(["weight", "molar"])))    # a pure feed is a specification too
     perv = pv.Pervaporation(membrane=membrane, mixture=mix)
     P1, P2 = pv.Permeance(gen.logu(rng, 1e-4, 1.0)), pv.Permeance(gen.logu(rng, 1e-4, 1.0))
-    kw = dict(permeate_temperature=Tperm, permeate_pressure=pperm, calculation_type=model)
-    if entry == "solver":
-        return perv.calculate_partial_fluxes(T, c, **kw)
-    if entry == "solver_inner":
-        return perv.get_partial_fluxes_from_permeate_composition(P1, P2, pv.Composition(rng.random(), "weight"), c, T, Tperm, pperm, model)
-    if entry == "permeate_composition":
-        return perv.calculate_permeate_composition(T, c, **kw)
-    if entry == "separation_factor":
-        return perv.calculate_separation_factor(T, c, **kw)
-    if entry == "ideal_curve":
-        return perv.ideal_diffusion_curve(T, [c, pv.Composition(0.5, "weight")], **kw)
-    if invalid and cls == "underdetermined_ea" and entry.startswith("nonideal"):
-        # one experiment per component, no activation energy; a single curve: at the feed temperature for the non-isothermal model
-        # (which cools away from it), at another temperature for the isothermal and the curve model
-        exps = [pv.IdealExperiment(name="e", temperature=320.0, component=cmp_, permeance=P1, activation_energy=None)
-                for cmp_ in (mix.first_component, mix.second_component)]
-        perv = pv.Pervaporation(membrane=pv.Membrane(name="v", ideal_experiments=pv.IdealExperiments(experiments=exps)), mixture=mix)
-        tc = T if entry == "nonideal_noniso" else T + rng.choice([-15.0, 12.0])
-        cs = rp.make_curve_set(rng, mix, n_curves=1, n_points=4, t_center=tc)
+    def run(Tperm, pperm):
+        kw = dict(permeate_temperature=Tperm, permeate_pressure=pperm, calculation_type=model)
+        if entry == "solver":
+            return perv.calculate_partial_fluxes(T, c, **kw)
+        if entry == "solver_inner":
+            return perv.get_partial_fluxes_from_permeate_composition(P1, P2, pv.Composition(rng.random(), "weight"), c, T, Tperm, pperm, model)
+        if entry == "permeate_composition":
+            return perv.calculate_permeate_composition(T, c, **kw)
+        if entry == "separation_factor":
+            return perv.calculate_separation_factor(T, c, **kw)
+        if entry == "ideal_curve":
+            return perv.ideal_diffusion_curve(T, [c, pv.Composition(0.5, "weight")], **kw)
+        if invalid and cls == "underdetermined_ea" and entry.startswith("nonideal"):
+            # one experiment per component, no activation energy; a single curve: at the feed temperature for the non-isothermal model
+            # (which cools away from it), at another temperature for the isothermal and the curve model
+            exps = [pv.IdealExperiment(name="e", temperature=320.0, component=cmp_, permeance=P1, activation_energy=None)
+                    for cmp_ in (mix.first_component, mix.second_component)]
+            perv_ea = pv.Pervaporation(membrane=pv.Membrane(name="v", ideal_experiments=pv.IdealExperiments(experiments=exps)), mixture=mix)
+            tc = T if entry == "nonideal_noniso" else T + rng.choice([-15.0, 12.0])
+            cs = rp.make_curve_set(rng, mix, n_curves=1, n_points=4, t_center=tc)
+            if entry == "nonideal_curve":
+                return perv_ea.non_ideal_diffusion_curve(cs, T, c, 0.01, 2, calculation_type=model)
+            cond = pv.Conditions(membrane_area=1.0, initial_feed_temperature=T, initial_feed_amount=1e3, initial_feed_composition=c)
+            pk = dict(conditions=cond, number_of_steps=2, delta_hours=1e-2, calculation_type=model, diffusion_curve_set=cs)
+            return perv_ea.non_ideal_isothermal_process(**pk) if entry == "nonideal_iso" else perv_ea.non_ideal_non_isothermal_process(**pk)
         if entry == "nonideal_curve":
-            return perv.non_ideal_diffusion_curve(cs, T, c, 0.01, 2, calculation_type=model)
-        cond = pv.Conditions(membrane_area=1.0, initial_feed_temperature=T, initial_feed_amount=1e3, initial_feed_composition=c)
-        pk = dict(conditions=cond, number_of_steps=2, delta_hours=1e-2, calculation_type=model, diffusion_curve_set=cs)
-        return perv.non_ideal_isothermal_process(**pk) if entry == "nonideal_iso" else perv.non_ideal_non_isothermal_process(**pk)
-    if entry == "nonideal_curve":
-        cs = rp.make_curve_set(rng, mix, n_curves=1, n_points=4, t_center=T)
-        return perv.non_ideal_diffusion_curve(cs, T, c, 0.01, 2, **kw)
-    if entry in ("ideal_iso", "ideal_noniso", "nonideal_iso", "nonideal_noniso"):
-        cond = pv.Conditions(membrane_area=1.0, initial_feed_temperature=T, initial_feed_amount=1e6, initial_feed_composition=c,
-                             permeate_temperature=Tperm, permeate_pressure=pperm)
-        pk = dict(conditions=cond, number_of_steps=2, delta_hours=1e-3, calculation_type=model)
-        if entry == "ideal_iso":
-            return perv.ideal_isothermal_process(**pk)
-        if entry == "ideal_noniso":
-            return perv.ideal_non_isothermal_process(**pk)
-        cs = rp.make_curve_set(rng, mix, n_curves=1, n_points=4, t_center=T)
-        pk["diffusion_curve_set"] = cs
-        return perv.non_ideal_isothermal_process(**pk) if entry == "nonideal_iso" else perv.non_ideal_non_isothermal_process(**pk)
-    if entry == "pure_flux":
-        return membrane.get_estimated_pure_component_flux(T, mix0.first_component, Tperm, pperm)
-    if entry == "curve_from_fluxes":
-        return pv.DiffusionCurve(mixture=mix, membrane_name="v", feed_temperature=T, feed_compositions=[c],
-                                 partial_fluxes=[(0.3, 0.1)], permeate_temperature=Tperm, permeate_pressure=pperm)
-    if entry == "activity":
-        return calculate_activity_coefficients(T, mix, c, model)
-    if entry == "partial_pressures":
-        return pv.get_partial_pressures(T, mix, c, model)
-    if entry == "mixture_construct":
-        if invalid:
-            return pv.Mixture(name="x", first_component=mix0.first_component, second_component=mix0.second_component)
-        return pv.Mixture(name="x", first_component=mix0.first_component, second_component=mix0.second_component,
-                          nrtl_params=mix0.nrtl_params)
-    if entry == "curve_construct":
-        if invalid:
-            return pv.DiffusionCurve(mixture=mix, membrane_name="v", feed_temperature=T, feed_compositions=[c])
-        return pv.DiffusionCurve(mixture=mix, membrane_name="v", feed_temperature=T, feed_compositions=[c], permeances=[(P1, P2)])
-    if entry in ("activation_energy", "get_permeance"):
-        comp = mix0.first_component
-        if invalid:
-            exps = [pv.IdealExperiment(name="e", temperature=320.0, component=comp, permeance=P1, activation_energy=None)]
-        else:
-            exps = [pv.IdealExperiment(name="e", temperature=320.0, component=comp, permeance=P1, activation_energy=None),
-                    pv.IdealExperiment(name="e", temperature=340.0, component=comp, permeance=P2, activation_energy=None)]
-        mem = pv.Membrane(name="v", ideal_experiments=pv.IdealExperiments(experiments=exps))
-        if entry == "activation_energy":
-            return mem.calculate_activation_energy(comp)
-        return mem.get_permeance(rng.uniform(330.0, 335.0), comp)
-    raise KeyError(entry)
+            cs = rp.make_curve_set(rng, mix, n_curves=1, n_points=4, t_center=T)
+            return perv.non_ideal_diffusion_curve(cs, T, c, 0.01, 2, **kw)
+        if entry in ("ideal_iso", "ideal_noniso", "nonideal_iso", "nonideal_noniso"):
+            cond = pv.Conditions(membrane_area=1.0, initial_feed_temperature=T, initial_feed_amount=1e6, initial_feed_composition=c,
+                                 permeate_temperature=Tperm, permeate_pressure=pperm)
+            pk = dict(conditions=cond, number_of_steps=2, delta_hours=1e-3, calculation_type=model)
+            if entry == "ideal_iso":
+                return perv.ideal_isothermal_process(**pk)
+            if entry == "ideal_noniso":
+                return perv.ideal_non_isothermal_process(**pk)
+            cs = rp.make_curve_set(rng, mix, n_curves=1, n_points=4, t_center=T)
+            pk["diffusion_curve_set"] = cs
+            return perv.non_ideal_isothermal_process(**pk) if entry == "nonideal_iso" else perv.non_ideal_non_isothermal_process(**pk)
+        if entry == "pure_flux":
+            return membrane.get_estimated_pure_component_flux(T, mix0.first_component, Tperm, pperm)
+        if entry == "curve_from_fluxes":
+            return pv.DiffusionCurve(mixture=mix, membrane_name="v", feed_temperature=T, feed_compositions=[c],
+                                     partial_fluxes=[(0.3, 0.1)], permeate_temperature=Tperm, permeate_pressure=pperm)
+        if entry == "curve_load":
+            # a curve file whose record fills BOTH permeate columns (fluxes, no permeances), read through the public loaders
+            import os
+            import tempfile
+            import pandas
+            from pathlib import Path
+            d = tempfile.mkdtemp(prefix="reject_", dir=os.environ.get("VERIF_SCRATCH") or None)
+            try:
+                mixb = rng.choice(gen.builtin_mixtures())                  # the file names its mixture
+                ok = pv.DiffusionCurve(mixture=mixb, membrane_name="v", feed_temperature=T, feed_compositions=[c, pv.Composition(0.5, "weight")],
+                                       partial_fluxes=[(0.3, 0.1), (0.2, 0.15)], permeate_temperature=Tperm if Tperm is not None else None,
+                                       permeate_pressure=None if Tperm is not None else pperm)
+                if rng.random() < 0.5:
+                    path = Path(d) / "curve.csv"
+                    loader = lambda: pv.DiffusionCurveSet.load(path)
+                else:
+                    os.makedirs(os.path.join(d, "m", "diffusion_curve_sets"))
+                    path = Path(d) / "m" / "diffusion_curve_sets" / "curve.csv"
+                    loader = lambda: pv.Membrane.load(Path(d) / "m")
+                ok.save(path)
+                fr = pandas.read_csv(path)
+                fr["permeance_1"] = float("nan")
+                fr["permeance_2"] = float("nan")
+                if Tperm is not None and pperm is not None:
+                    fr["permeate_temperature"] = Tperm
+                    fr["permeate_pressure"] = pperm
+                fr.to_csv(path, index=False)
+                return loader()
+            finally:
+                import shutil
+                shutil.rmtree(d, ignore_errors=True)
+        if entry == "activity":
+            return calculate_activity_coefficients(T, mix, c, model)
+        if entry == "partial_pressures":
+            return pv.get_partial_pressures(T, mix, c, model)
+        if entry == "mixture_construct":
+            if invalid:
+                return pv.Mixture(name="x", first_component=mix0.first_component, second_component=mix0.second_component)
+            return pv.Mixture(name="x", first_component=mix0.first_component, second_component=mix0.second_component,
+                              nrtl_params=mix0.nrtl_params)
+        if entry == "curve_construct":
+            if invalid:
+                return pv.DiffusionCurve(mixture=mix, membrane_name="v", feed_temperature=T, feed_compositions=[c])
+            return pv.DiffusionCurve(mixture=mix, membrane_name="v", feed_temperature=T, feed_compositions=[c], permeances=[(P1, P2)])
+        if entry in ("activation_energy", "get_permeance"):
+            comp = mix0.first_component
+            if invalid:
+                exps = [pv.IdealExperiment(name="e", temperature=320.0, component=comp, permeance=P1, activation_energy=None)]
+            else:
+                exps = [pv.IdealExperiment(name="e", temperature=320.0, component=comp, permeance=P1, activation_energy=None),
+                        pv.IdealExperiment(name="e", temperature=340.0, component=comp, permeance=P2, activation_energy=None)]
+            mem = pv.Membrane(name="v", ideal_experiments=pv.IdealExperiments(experiments=exps))
+            if entry == "activation_energy":
+                return mem.calculate_activation_energy(comp)
+            return mem.get_permeance(rng.uniform(330.0, 335.0), comp)
+        raise KeyError(entry)
+
+    if both and warm:
+        # the SAME objects answer the valid question first (temperature only), then the contradictory one: still rejected
+        try:
+            run(Tperm, None)
+        except Exception:  # noqa: BLE001
+            pass
+    return run(Tperm, pperm)
 
 
 def reject_job(job):
@@ -116,7 +156,7 @@ def reject_job(job):
         for j in range(k):
             for invalid in (True, False):
                 try:
-                    call_entry(rng, r["entry"], r["class"], r["model"], invalid)
+                    call_entry(rng, r["entry"], r["class"], r["model"], invalid, warm=(j % 2 == 1))
                     outcome, exc = "ok", None
                 except Exception as e:  # noqa: BLE001
                     outcome, exc = "raise", type(e).__name__
